@@ -146,7 +146,11 @@ func tabOne(scn int, sc TabScenario) ([]rec.Event, error) {
 			e["h"] = h
 		case "Close":
 			if op.X < 1 || op.X > len(handles) {
-				return nil, fmt.Errorf("scenario %d: no handle %d", scn, op.X)
+				// the real table already diverged from the specification's (an Open returned another handle): that
+				// was recorded at the Open; the rest of the scenario cannot be performed
+				e["r"] = "nohandle"
+				evs = append(evs, e)
+				goto done
 			}
 			done := make(chan struct{})
 			go func() { handles[op.X-1].Close(); close(done) }()
@@ -187,7 +191,9 @@ func tabOne(scn int, sc TabScenario) ([]rec.Event, error) {
 			}
 		case "Read":
 			if op.X < 1 || op.X > len(handles) {
-				return nil, fmt.Errorf("scenario %d: no handle %d", scn, op.X)
+				e["r"] = "nohandle"
+				evs = append(evs, e)
+				goto done
 			}
 			r := readOnce(handles[op.X-1], time.Second)
 			e["r"], e["n"] = r.R, r.N
@@ -199,6 +205,7 @@ func tabOne(scn int, sc TabScenario) ([]rec.Event, error) {
 		}
 		evs = append(evs, e)
 	}
+done:
 	if !closed {
 		a.Close()
 		evs = append(evs, rec.Event{"ev": "Op", "scn": scn, "i": len(sc.Ops) + 1, "op": "MClose", "x": 0, "r": "", "n": 0, "h": 0, "same": true})
